@@ -318,6 +318,7 @@ dt_get_wcnt_year(struct dt_d_s this, unsigned int wkcnt_convention)
 		/*@fallthrough@*/
 	case DT_YMD:
 	case DT_YMCW:
+	case DT_BIZDA:
 	case DT_DAISY:
 	case DT_YD: {
 		dt_yd_t yd = dt_conv_to_yd(this);
@@ -637,7 +638,8 @@ dt_conv_to_ywd(struct dt_d_s this)
 	daisy:
 		return __daisy_to_ywd(this.daisy);
 	case DT_BIZDA:
-		return __bizda_to_ywd(this.bizda, __get_bizda_param(this));
+		/* __bizda_to_ywd() counts weeks of 5 days where 7 are meant */
+		return __ymd_to_ywd(__bizda_to_ymd(this.bizda));
 	case DT_YD:
 		return __yd_to_ywd(this.yd);
 	case DT_UMMULQURA:
@@ -676,6 +678,8 @@ dt_conv_to_yd(struct dt_d_s this)
 		return __ymcw_to_yd(this.ymcw);
 	case DT_YWD:
 		return __ywd_to_yd(this.ywd);
+	case DT_BIZDA:
+		return __ymd_to_yd(__bizda_to_ymd(this.bizda));
 	case DT_UMMULQURA:
 		this.ldn = __ummulqura_to_ldn(this.ummulqura);
 		goto ldn;
